@@ -98,6 +98,13 @@ CHECKS = {
         technique=MC_TECH + " (all object chains x all object/type functions, differential against reference definitions)",
         design="DESIGN.md §4 C13",
     ),
+    "C19": dict(
+        category="exploration",
+        text="Every generated whole-grammar program (<= k constructs), every single insertion of a block / line / trailing / hash comment at every token boundary and comments at every boundary at once, every short string literal in the four quotings and every small text block (tabs, blank and whitespace-only lines, both terminators), plus the repository inputs: the formatter declines or prints text that the evaluator's default parser accepts with the same position-free tree (modulo the two documented sugar equivalences), and the comment sequence of the output equals that of the input.",
+        note="Trusted: the position-free tree printer (harness/src/canon.rs) and the comment extractor (lexer tokens, whitespace-trimmed bodies).",
+        technique=MC_TECH + " (all generated programs x comment placements x string forms, tree-equality and comment-sequence oracles on the formatter output)",
+        design="DESIGN.md §4 C19",
+    ),
     "C20": dict(
         category="exploration",
         text="Every token sequence, character string, number-like and text-block-like string of the C06 sequence spaces through the jrsonnet-fmt pipeline: no panic, no hang, declined whenever the evaluator's parser rejects the text, fixed point whenever it formats. Every generated whole-grammar program (<= k constructs) x indentation {tabs,2,4}, plus every single insertion of newline / blank line / block comment / line comment / trailing comment / hash comment at every token boundary, one token per line, plus the repository's own inputs: format(format(x)) = format(x).",
